@@ -5,6 +5,7 @@ import (
 	"math/big"
 	"os"
 	"strconv"
+	"sync"
 	"time"
 
 	"github.com/influxdata/influxql"
@@ -29,10 +30,16 @@ import (
 // midnights 2 and 3 are midnights IN THAT ZONE and zone-less literal forms (dt, date) are written
 // as wall clock in that zone.  The symbolic instants, and with them everything the judge sees,
 // are the same as in a UTC run.
+//
+// tz runs (C18, VERIF_C18_TZ = zone name with daylight saving, e.g. America/New_York): the statement carries
+// tz('<zone>'), the valuer carries the zone, and the bases 1, 2, 3 are 04:00Z, 05:00Z and 06:00Z of 2021-11-07:
+// 05:00Z and 06:00Z are both "01:00" on that zone's wall clock (the hour the clocks repeat).  Zone-less literal
+// forms (dt, date) are ambiguous there and are written as rfc.  Symbolic instants are unchanged.
 type c10Mapping struct {
 	bases map[int]time.Time
 	now   time.Time
 	zone  *time.Location
+	tz    string
 }
 
 func (m *c10Mapping) valuer() *influxql.NowValuer {
@@ -42,7 +49,7 @@ func (m *c10Mapping) valuer() *influxql.NowValuer {
 	return &influxql.NowValuer{Now: m.now, Location: m.zone}
 }
 
-func c10Map(edge bool) *c10Mapping {
+func c10Map(edge bool, tz string) *c10Mapping {
 	shift := time.Duration(seed()%1000) * 24 * time.Hour
 	zone := time.UTC
 	if z := os.Getenv("VERIF_C10_ZONE_MIN"); z != "" {
@@ -61,11 +68,32 @@ func c10Map(edge bool) *c10Mapping {
 		m.bases[4] = time.Date(2031, 12, 31, 23, 59, 59, 999999999, time.UTC)
 		m.bases[5] = time.Unix(0, influxql.MaxTime).UTC()
 	}
+	if tz != "" {
+		loc, err := time.LoadLocation(tz)
+		if err != nil {
+			panic("c10: " + err.Error())
+		}
+		m.zone, m.tz = loc, tz
+		m.bases[1] = time.Date(2021, 11, 7, 4, 0, 0, 0, time.UTC)
+		m.bases[2] = time.Date(2021, 11, 7, 5, 0, 0, 0, time.UTC)
+		m.bases[3] = time.Date(2021, 11, 7, 6, 0, 0, 0, time.UTC)
+	}
 	m.now = m.bases[3]
 	return m
 }
 
 var c10Maps = map[bool]*c10Mapping{}
+
+// tz mappings (C18): built on demand, one per zone name
+var c10TzMaps sync.Map
+
+func c10GetTzMap(tz string) *c10Mapping {
+	if m, ok := c10TzMaps.Load(tz); ok {
+		return m.(*c10Mapping)
+	}
+	m, _ := c10TzMaps.LoadOrStore(tz, c10Map(false, tz))
+	return m.(*c10Mapping)
+}
 
 func c10GetMap(edge bool) *c10Mapping {
 	// built once per process before the workers start (see init below)
@@ -131,7 +159,11 @@ func c10Resolve(toks []interface{}, m *c10Mapping) []interface{} {
 		}
 		k, d, g := num(t["k"]), num(t["d"]), str(t["g"])
 		at := m.at(k, d)
-		switch f := str(t["f"]); f {
+		f := str(t["f"])
+		if m.tz != "" && (f == "dt" || f == "date") {
+			f = "rfc"
+		}
+		switch f {
 		case "int":
 			out = append(out, c10Tok("int", m.nanos(k, d).String(), g))
 		case "rfc":
@@ -228,7 +260,7 @@ func c10SplitInto(o M, cond influxql.Expr, m *c10Mapping, withAST bool) {
 }
 
 func init() {
-	c10Maps[false], c10Maps[true] = c10Map(false), c10Map(true)
+	c10Maps[false], c10Maps[true] = c10Map(false, ""), c10Map(true, "")
 	register("c10", &Suite{Run: func(c M) M {
 		edge, _ := c["edge"].(bool)
 		m := c10GetMap(edge)
